@@ -178,7 +178,11 @@ func check(c Case, o *stats.Obs) error {
 		cmd.Env = append(cmd.Env, "TZ="+tzPath)
 	}
 	if os.Getenv("VERIF_INSTRUMENTED") != "" {
-		cmd.Env = append(cmd.Env, fmt.Sprintf("VERIF_YIELD=%d:2:300:1", c.YieldSeed+1))
+		maxUs := 300
+		if c.YieldSeed%2 == 1 {
+			maxUs = 2000 // longer injected pauses: windows of a few hundred microseconds are then missed reliably
+		}
+		cmd.Env = append(cmd.Env, fmt.Sprintf("VERIF_YIELD=%d:2:%d:1", c.YieldSeed+1, maxUs))
 	}
 	var stdout lockedBuf
 	var stderr bytes.Buffer
